@@ -56,6 +56,11 @@ pub struct Case {
   /// wrap; the last one is never due in any run
   #[serde(default)]
   far: u8,
+  /// fault: time (in units of 100 us) that passes inside the k-th timer
+  /// creation, i.e. between the moment a scheduled task computes its deadline
+  /// and its first look at the clock - the real clock never stands still there
+  #[serde(default)]
+  creep: Vec<u32>,
 }
 
 pub struct C07;
@@ -100,7 +105,8 @@ impl Scenario for C07 {
     }
     let threads_flavour = rng.chance(1, 2);
     let far = if !matches!(op, MOp::ObserveOn | MOp::SubscribeOn) && rng.chance(1, 15) { rng.range(1, 4) as u8 } else { 0 };
-    serde_json::to_value(Case { op, threads_flavour, cold, policy: if rng.chance(1, 2) { Policy::Fifo } else { Policy::AnyReady }, acts, far }).unwrap()
+    let creep: Vec<u32> = if far == 0 && matches!(op, MOp::Delay(_) | MOp::DelayAt(_)) && rng.chance(1, 4) { (0..rng.range(1, 6)).map(|_| *rng.pick(&[0u32, 0, 1, 3, 10, 50, 200, 12_000])).collect() } else { vec![] };
+    serde_json::to_value(Case { op, threads_flavour, cold, policy: if rng.chance(1, 2) { Policy::Fifo } else { Policy::AnyReady }, acts, far, creep }).unwrap()
   }
 
   fn run(&self, case: &Value) -> Result<Outcome, String> {
@@ -151,6 +157,7 @@ impl Scenario for C07 {
       }
     };
     let t_sub = w.now();
+    set_creep(&case.creep.iter().map(|c| *c as u64 * MS / 10).collect::<Vec<_>>());
     // configured delay (ns) of an item produced at time t: delivery must not be before t + item_delay
     let far_ns = if case.far > 0 { sim_ns(far) } else { 0 };
     // an instant `far` ahead of a moment up to 5 ms in the past is still ahead
@@ -166,7 +173,11 @@ impl Scenario for C07 {
     if case.far > 4 || (case.far > 0 && matches!(case.op, MOp::ObserveOn | MOp::SubscribeOn)) {
       return Err("bad shape".into());
     }
-    let site = format!("{}{} policy={:?}", opname, if case.threads_flavour { "_threads" } else { "" }, case.policy);
+    if case.creep.len() > 16 {
+      return Err("bad shape".into());
+    }
+    let creeping = case.creep.iter().any(|c| *c > 0);
+    let site = format!("{}{} policy={:?}{}", opname, if case.threads_flavour { "_threads" } else { "" }, case.policy, if creeping { " clock-creep" } else { "" });
     let mut emitted: Vec<(Val, u64)> = cold_items.iter().map(|v| (v.clone(), t_sub)).collect();
     let mut terminal: Option<Ev> = if case.cold.is_some() { Some(Ev::Complete) } else { None };
     let mut violation: Option<Violation> = None;
@@ -297,8 +308,9 @@ impl Scenario for C07 {
       }
       check(&emitted, &terminal, false, &trace, &mut violation);
     }
-    // a delay of 2^64 ns is never due: idle is not the end of the story then
-    check(&emitted, &terminal, case.far != 4, &trace, &mut violation);
+    // with far-ahead delays a deadline may lie beyond the range of the simulated
+    // clock (never due in this run): idle is not the end of the story then
+    check(&emitted, &terminal, case.far == 0, &trace, &mut violation);
     let recs = log.records();
     let mut h = hash_str(&trace);
     for r in &recs {
@@ -309,15 +321,17 @@ impl Scenario for C07 {
     let jumps = st.clock_jumps_over_2.load(SeqCst);
     let sample = format!("{} src={}: {} => {}", site, if case.cold.is_some() { "cold" } else { "hot" }, trace.trim(), recs.iter().map(|r| format!("{}@{}", fmt_ev(&r.ev), r.t / MS)).collect::<Vec<_>>().join(" "));
     let sim = w.now();
+    set_creep(&[]);
+    let creeps = st.clock_creeps.load(SeqCst);
     drop(_sub);
     drop(w);
     Ok(Outcome {
       violation,
       trace_hash: h,
-      nontrivial: multi > 0 || jumps > 0,
+      nontrivial: multi > 0 || jumps > 0 || creeps > 0,
       sim_ns: sim,
       steps: case.acts.len() as u64,
-      faults: vec![("task_reorder(>=2 ready, AnyReady)", if case.policy == Policy::AnyReady { multi } else { 0 }), ("clock_jump_over_2_deadlines", jumps)],
+      faults: vec![("task_reorder(>=2 ready, AnyReady)", if case.policy == Policy::AnyReady { multi } else { 0 }), ("clock_jump_over_2_deadlines", jumps), ("time_passes_inside_a_timer_creation", creeps)],
       reach: vec![(">=2_ready_tasks_at_run_decision", multi)],
       resolved: None,
       sample,
